@@ -98,7 +98,7 @@ CoverTree(cs) == Root(NS, <<>>, MapOf({ClsNode(c, Plain2(c)) : c \in cs}))
 
 (* translate family *)
 TrNest(x) ==
-    LET cls == IF x.derived THEN (IF x.ty = "anonymous" THEN "p/Outer$3" ELSE "p/Outer$Name") ELSE "p/N1"
+    LET cls == IF x.derived THEN (IF x.ty = "anonymous" THEN "p/Outer$3" ELSE IF x.javac THEN "p/Outer$12Name" ELSE "p/Outer$Name") ELSE "p/N1"
         inner == CASE x.ty = "inner" -> "Name" [] x.ty = "anonymous" -> "3" [] x.ty = "local" -> "12Name"
         m == IF x.meth = "none" THEN <<>> ELSE <<"run", "(Lp/N1;Lp/Outer$Name;I)Lp/Outer;">>
     IN NestRec(cls, "p/Outer", m, inner, 10)
@@ -151,9 +151,10 @@ Allowed(f, n, p) == (f = "jar" /\ n >= 3 /\ ~p.pr) => p.kv = "inn"
 Start ==
     /\ phase = "start"
     /\ \/ \E f \in {"jar", "map"}, n \in 1..4 : fam' = f /\ size' = n /\ phase' = "draft" /\ draft' = <<>> /\ extra' = <<>>
-       \/ \E ty \in {"inner", "anonymous", "local"}, derived \in BOOLEAN, meth \in {"none", "named", "unnamed"} :
+       \/ \E ty \in {"inner", "anonymous", "local"}, derived \in BOOLEAN, meth \in {"none", "named", "unnamed"}, javac \in BOOLEAN :
+            /\ (javac => ty = "local" /\ derived)       \* the local class named as javac names it: Outer$12Name, inner name 12Name
             /\ fam' = "tr" /\ size' = 0 /\ phase' = "draft" /\ draft' = <<>>
-            /\ extra' = [ty |-> ty, derived |-> derived, meth |-> meth]
+            /\ extra' = [ty |-> ty, derived |-> derived, meth |-> meth, javac |-> javac]
        \/ \E a \in 1..Len(LinePool) :
             /\ fam' = "read" /\ size' = 0 /\ phase' = "draft" /\ draft' = <<>> /\ extra' = [a |-> a]
 Grow ==
